@@ -305,6 +305,11 @@ def compare_lines(mode, a, b, projection, scale=1.0, rel=1e-9):
                     if fx != fx or fy != fy:  # NaN
                         if not (fx != fx and fy != fy):
                             return False, i, bit
+                    elif projection == "rel":
+                        # each value against its own magnitude (no absolute floor): signed zeros are equal, a subnormal is not 0
+                        if not (fx == fy or (abs(fx) != float("inf") and abs(fy) != float("inf")
+                                             and abs(fx - fy) <= rel * max(abs(fx), abs(fy)))):
+                            return False, i, bit
                     elif not close(fx, fy, scale, rel):
                         return False, i, bit
         else:
